@@ -14,7 +14,8 @@ def run(ctx):
                         "H11 protocol sessions against the H11Proto model; HTTPStream sequences against the stream model; end-to-"
                         "end sessions (statuses incl. 204/304, HEAD, header lists with/without content-length, repeated names, "
                         "chunkings with empty / 1-byte / 20000-byte chunks, HTTP/1.0 and 1.1) parsed by an independent h11 client "
-                        "and compared with what the application sent.")
+                        "and compared with what the application sent.",
+                        extra=K.h2_extra(["c02"], (150, 2500, 800), crashes=False))
 
 
 def known_still_fails(k):
